@@ -82,7 +82,7 @@ CHECKS = {
                 "cannot be started or exits non-zero, or an unpreparable item, makes the run fail without skipping the item. Tied to "
                 "the code by tracing real runs over generated item lists (hooks absent / succeeding / failing / unstartable, items "
                 "missing / overlapping / aborting with an injected read error): the observed order of execve of the hook commands "
-                "and of opens below each item root, the hook log and the exit status vs the extracted model. Some items come into being only in their own (succeeding) before hook; failing hooks exit non-zero or die from SIGKILL / SIGTERM / SIGSEGV.",
+                "and of opens below each item root, the hook log and the exit status vs the extracted model. Some items come into being only in their own (succeeding) before hook; failing hooks exit non-zero or die from SIGKILL / SIGTERM / SIGSEGV; half of the runs start from a storage whose old group is due for rotation, and the theorem C19_failing_hook_fails_backup composes the failure with the retention phase's status.",
         "note": "'reads of an item's paths' are observed as openat / readlink at or below the item root by the main thread; bash is "
                 "trusted to run the configured command.",
         "technique": "Coq proof (trace shape by induction over items) + system-call ordering traces of the real binary",
@@ -141,7 +141,7 @@ CHECKS = {
                 "runs; with unreadable manifests a run adds no damage of its own. Tied to the code by real run histories (rotation "
                 "with unchanged files, content moving / returning, same-identity size changes, a garbage manifest mid-group): the "
                 "decoded manifest and archive of every new backup are compared with the extracted model, and the property is "
-                "evaluated on every backup present after every run. Also: a targeted history in which the only unique record of some content becomes unreadable while a later backup holds an extern record for it and the content then appears under a new path; and scheduled concurrent-writer runs (content replaced between the two read passes, a copy of the old content in a later item).",
+                "evaluated on every backup present after every run. Also: a targeted history in which the only unique record of some content becomes unreadable while a later backup holds an extern record for it and the content then appears under a new path; and scheduled concurrent-writer runs (content replaced between the two read passes, a copy of the old content in a later item); and a second run inside the same second as the backup just published.",
         "note": "Hash = content in the model. Directory order is taken from os.listdir on the unchanged directory. F6 (fingerprint "
                 "shortcut ignoring a size change) found and repaired.",
         "technique": "Coq proof (fold-with-accumulator invariant over manifests) + differential histories against the real binary",
@@ -256,10 +256,10 @@ CHECKS = {
                 "slash-free strings, `?` one non-slash byte, a leading `**/` nothing or everything up to a slash, `{..}` "
                 "alternates; blank and # lines are ignored; rule lines read back. The glob parser, token semantics, vsb's "
                 "unescaping and line parsing are a Gallina model compared with the real PathFilter on an exhaustive small "
-                "universe, grammar-generated specs with derived paths, and a malformed stream.",
+                "universe, grammar-generated specs with derived paths, and a malformed stream. Several items: the walk of each item is that of its own tree under its own rule list whatever became of earlier items (theorem), tied by real runs over 2..4 items with different rule lists and missing / overlapping earlier items.",
         "note": "Partial: globset's regex engine is trusted to implement each token's language (parser and translation are "
                 "modelled); the walker's use of the filter (item-relative path, no descent) is proved on the walker model and "
-                "tied to the real binary by the storage-level checks (C08/C01 histories with filters).",
+                "tied to the real binary by walker_part / multi_item_part of this check and by the storage-level checks (C08/C01 histories with filters).",
         "technique": "Coq proofs on a glob/filter/walker model + exhaustive and grammar-based differential correspondence",
         "design": "7/C14",
     },
